@@ -56,6 +56,23 @@ def run(tier):
                               "out_original": a["out"] + a["err"][-300:], "out_respelled": c["out"] + c["err"][-300:]})
     finally:
         b.close()
+    # scanner model tie: gocc's hand-written scanner vs Gocc.fscan on the (re)spelled texts and on random byte strings
+    texts = [t for t in list(nontrivial)[:200]]
+    frag = [b"a", b"!x", b"_r", b"Abc", b"'a'", b"'\\n'", b"'\\x41'", b"'\\u00e9'", b"'ab'", b"\"s\"", b"`r`", b"<< x >>", b"<<", b">>", b"/*", b"*/", b"//", b"\n", b" ", b"\t", b"\r",
+            b":", b";", b"|", b"-", b"(", b")", b"[", b"]", b"{", b"}", b".", b",", b"<", b"<=", b"/", b"\\", b"'", b"\"", b"`", b"\x00", b"\xff", b"\xc2\xa7", b"0", b"9", b"import", b"//line f:7\n"]
+    for _ in range(600 if tier == "quick" else 30000):
+        texts.append(b"".join(ck.rng.choice(frag) for _ in range(ck.rng.randint(0, 14))))
+    slines = ["fescan " + " ".join(map(str, t)) for t in texts]
+    simpl = C.run_lines(C.build_drv(), slines)[1]
+    smodel = C.run_model(slines, timeout=3000)
+    sdiff = 0
+    for t, a, m in zip(texts, simpl, smodel):
+        if a != m:
+            sdiff += 1
+            ck.violation("correspondence broken: gocc's scanner vs Gocc.fscan on %r: impl `%s` model `%s`" % (t[:80], a[:200], m[:200]),
+                         {"text": t.decode("latin1"), "impl": a, "model": m, "unchecked": "correspondence Gocc.Model.FScan vs internal/frontend/scanner"}, found_input=False)
+    ck.cov["scanner_tie_cases"] = len(texts)
+    ck.cov["scanner_tie_disagreements"] = sdiff
     ck.proof_failures(failed, "C13 theorems")
     ck.cov.update({"evaluations": len(pairs), "distinct_nontrivial": len(nontrivial), "respellings": kinds,
                    "rule": "random grammars (lexical part with Unicode ranges, optional syntax part with string literals) respelled four ways: layout (white space, CR LF, both comment "
